@@ -96,3 +96,17 @@ func init() {
 	register("C12", ruleDataMatrixEncoder)
 	register("C13", ruleDataMatrixEncoder)
 }
+
+func init() {
+	register("C06", ruleEANAssembly)
+	register("C08", ruleCodabarValidation)
+	register("C10", ruleEANAssembly, ruleCodabarValidation, ruleCode93Tables, ruleCode39Tables, ruleCode128Tables)
+	register("C11", ruleQRTables, ruleEANAssembly)
+	register("C14", ruleCode39Tables)
+	register("C15", ruleCode39Tables, ruleCode93Tables)
+}
+
+func init() {
+	register("C05", ruleCode128Encoder)
+	register("C14", ruleCode128Encoder)
+}
